@@ -151,6 +151,13 @@ func (h *MultiHandler) Accept(msg *Message) {
 		return
 	}
 
+	// A message built on another view of the previous round's broadcasts must not
+	// be verified against ours: its content would fail for no fault of its sender.
+	if !h.sameBroadcastView(msg) {
+		h.abort(errors.New("broadcast verification failed"))
+		return
+	}
+
 	if msg.Broadcast {
 		if err := h.verifyBroadcastMessage(msg); err != nil {
 			h.abort(err, msg.From)
@@ -301,6 +308,10 @@ func (h *MultiHandler) finalize() {
 			if m == nil || id == r.SelfID() {
 				continue
 			}
+			if !h.sameBroadcastView(m) {
+				h.abort(errors.New("broadcast verification failed"))
+				return
+			}
 			// if false, we aborted and so we return
 			if err = h.verifyBroadcastMessage(m); err != nil {
 				h.abort(err, m.From)
@@ -312,6 +323,10 @@ func (h *MultiHandler) finalize() {
 		for _, m := range h.messages[roundNumber] {
 			if m == nil {
 				continue
+			}
+			if !h.sameBroadcastView(m) {
+				h.abort(errors.New("broadcast verification failed"))
+				return
 			}
 			// if false, we aborted and so we return
 			if err = h.verifyMessage(m); err != nil {
@@ -456,6 +471,13 @@ func getRoundMessage(msg *Message, r round.Session) (round.Message, error) {
 		Broadcast: msg.Broadcast,
 	}
 	return roundMsg, nil
+}
+
+// sameBroadcastView reports whether msg was built on the same set of broadcasts
+// of the previous round as the one this party holds.
+func (h *MultiHandler) sameBroadcastView(msg *Message) bool {
+	previousHash := h.broadcastHashes[msg.RoundNumber-1]
+	return previousHash == nil || bytes.Equal(previousHash, msg.BroadcastVerification)
 }
 
 // checkBroadcastHash is run after receivedAll() and checks whether all provided verification hashes are correct.
